@@ -185,55 +185,63 @@ Definition nums_len (na : zarr) (known : option nat) : res nat :=
   | n :: _ => if check_1d (z_shape na) known then Ok n else Err EType
   end.
 
+(* ItemList() without identifiers, numbers or source: the empty list *)
+Definition empty_call (src : option ilist) (a : cargs) : bool :=
+  match src, c_ids a, c_nums a with None, None, None => true | _, _, _ => false end.
+Definition st1 := (option (list Z) * option (list Z) * option nat)%type.     (* _ids, _numbers, _len (if set) *)
+Definition base_state (src : option ilist) (a : cargs) : st1 :=
+  if empty_call src a then (Some [], Some [], Some O)
+  else match src with Some s => (ids s, nums s, Some (len s)) | None => (None, None, None) end.
+
+(* item_ids given: the numbers copied from the source are dropped *)
+Definition ids_step (src : option ilist) (a : cargs) (st : st1) : res st1 :=
+  match c_ids a with
+  | None => Ok st
+  | Some ia => n <- ids_len ia ;;
+               Ok (Some (if (n =? 0)%nat then [] else z_data ia),
+                   (if is_some (src_of src nums) then None else snd (fst st)), Some n)
+  end.
+(* item_nums given: identifiers copied from the source are dropped (not identifiers given in the same call) *)
+Definition nums_step (src : option ilist) (a : cargs) (st : st1) : res st1 :=
+  match c_nums a with
+  | None => Ok st
+  | Some na => n <- nums_len na (snd st) ;;
+               Ok ((if is_some (src_of src ids) && negb (is_some (c_ids a)) then None else fst (fst st)),
+                   Some (if (n =? 0)%nat then [] else z_data na), Some n)
+  end.
+(* vocabulary replaced: keep the identifiers, recompute the numbers on demand *)
+Definition vocab_step (env : envt) (src : option ilist) (a : cargs) (i2 n2 : option (list Z))
+  : res (option (list Z) * option (list Z)) :=
+  match src, c_vocab a with
+  | Some s, Some v =>
+      match vocab s with
+      | Some v0 =>
+          if negb (Nat.eqb v v0) && negb (is_some (c_ids a)) && negb (is_some (c_nums a)) then
+            match i2 with
+            | Some i => Ok (Some i, None)
+            | None => match nums s with
+                      | Some ns => i <- vids (venv env v0) ns ;; Ok (Some i, None)
+                      | None => Err ERuntime
+                      end
+            end
+          else Ok (i2, n2)
+      | None => Ok (i2, n2)
+      end
+  | _, _ => Ok (i2, n2)
+  end.
+(* ranks cached by the source only describe a list of the same length *)
+Definition ranks_step (src : option ilist) (n : nat) : option (list Z) :=
+  match src with
+  | Some s => if is_some (ranks s) && negb (n =? len s)%nat then None else ranks s
+  | None => None
+  end.
+
 Definition phase1 (env : envt) (src : option ilist) (a : cargs) : res core :=
-  let i0 := src_of src ids in
-  let n0 := src_of src nums in
-  let l0 : option nat := match src with Some s => Some (len s) | None =>
-                 match c_ids a, c_nums a with None, None => Some O | _, _ => None end end in
-  let empty := match src, c_ids a, c_nums a with None, None, None => true | _, _, _ => false end in
-  let i0 := if empty then Some [] else i0 in
-  let n0 := if empty then Some [] else n0 in
-  (* item_ids *)
-  st1 <- match c_ids a with
-         | None => Ok (i0, n0, l0)
-         | Some ia => n <- ids_len ia ;;
-                      Ok (Some (if (n =? 0)%nat then [] else z_data ia), (if is_some (src_of src nums) then None else n0), Some n)
-         end ;;
-  let '(i1, n1, l1) := st1 in
-  (* item_nums *)
-  st2 <- match c_nums a with
-         | None => Ok (i1, n1, l1)
-         | Some na => n <- nums_len na l1 ;;
-                      Ok ((if is_some (src_of src ids) && negb (is_some (c_ids a)) then None else i1),
-                          Some (if (n =? 0)%nat then [] else z_data na), Some n)
-         end ;;
-  let '(i2, n2, l2) := st2 in
-  let n := match l2 with Some n => n | None => O end in
-  (* vocabulary replaced: keep the identifiers, recompute the numbers on demand *)
-  st3 <- match src, c_vocab a with
-         | Some s, Some v =>
-             match vocab s with
-             | Some v0 =>
-                 if negb (Nat.eqb v v0) && negb (is_some (c_ids a)) && negb (is_some (c_nums a)) then
-                   match i2 with
-                   | Some i => Ok (Some i, @None (list Z))
-                   | None => match nums s with
-                             | Some ns => i <- vids (venv env v0) ns ;; Ok (Some i, None)
-                             | None => Err ERuntime
-                             end
-                   end
-                 else Ok (i2, n2)
-             | None => Ok (i2, n2)
-             end
-         | _, _ => Ok (i2, n2)
-         end ;;
-  let '(i3, n3) := st3 in
-  (* ranks cached by the source only describe a list of the same length *)
-  let r := match src with
-           | Some s => if is_some (ranks s) && negb (n =? len s)%nat then None else ranks s
-           | None => None
-           end in
-  Ok {| k_len := n; k_ids := i3; k_nums := n3; k_ranks := r |}.
+  s1 <- ids_step src a (base_state src a) ;;
+  s2 <- nums_step src a s1 ;;
+  let n := match snd s2 with Some n => n | None => O end in
+  s3 <- vocab_step env src a (fst (fst s2)) (snd (fst s2)) ;;
+  Ok {| k_len := n; k_ids := fst s3; k_nums := snd s3; k_ranks := ranks_step src n |}.
 
 (* phase 2: scores, ranks, fields *)
 Definition eff_fields (src : option ilist) (a : cargs) : list (fname * farg) :=
@@ -269,32 +277,38 @@ Fixpoint other_fields (n : nat) (eff : list (fname * farg)) : res (list (fname *
       end
   end.
 
+(* the rank= keyword: sets the ranks and makes the list ordered, unless ordered=False was given *)
+Definition rank_phase (a : cargs) (ord0 : bool) (r0 : option (list Z)) (n : nat) : res (bool * option (list Z)) :=
+  match lookup F_RANK (c_fields a) with
+  | None => Ok (ord0, r0)
+  | Some d =>
+      match c_ordered a with
+      | Some false => Ok (ord0, r0)                                 (* warning; ranks dropped *)
+      | _ => match d with
+             | FFalse => Err EType
+             | FArr x => if check_1d (a_shape x) (Some n) then Ok (true, Some (map val_Z (a_data x))) else Err EType
+             end
+      end
+  end.
+Definition score_field (n : nat) (sc : option (list nat * list val)) : res (list (fname * list val)) :=
+  match sc with
+  | None => Ok []
+  | Some (sh, d) => if check_1d sh (Some n) then Ok [(F_SCORE, d)] else Err EType
+  end.
+Definition ordered0 (src : option ilist) (a : cargs) : bool :=
+  match c_ordered a with Some b => b | None => match src with Some s => ordered s | None => false end end.
+Definition vocab0 (src : option ilist) (a : cargs) : option nat :=
+  match c_vocab a with Some v => Some v | None => src_of src vocab end.
+
 Definition construct (env : envt) (src : option ilist) (a : cargs) : res ilist :=
-  let ord0 := match c_ordered a with Some b => b | None => match src with Some s => ordered s | None => false end end in
-  let voc := match c_vocab a with Some v => Some v | None => src_of src vocab end in
   k <- phase1 env src a ;;
   let n := k_len k in
   let eff := eff_fields src a in
   sc <- score_arr n eff a ;;
-  (* rank keyword *)
-  rk <- match lookup F_RANK (c_fields a) with
-        | None => Ok (ord0, k_ranks k)
-        | Some d =>
-            match c_ordered a with
-            | Some false => Ok (ord0, k_ranks k)                  (* warning; ranks dropped *)
-            | _ => match d with
-                   | FFalse => Err EType
-                   | FArr x => if check_1d (a_shape x) (Some n) then Ok (true, Some (map val_Z (a_data x))) else Err EType
-                   end
-            end
-        end ;;
-  let '(ord, rks) := rk in
-  scf <- match sc with
-         | None => Ok []
-         | Some (sh, d) => if check_1d sh (Some n) then Ok [(F_SCORE, d)] else Err EType
-         end ;;
+  rk <- rank_phase a (ordered0 src a) (k_ranks k) n ;;
+  scf <- score_field n sc ;;
   others <- other_fields n eff ;;
-  Ok {| len := n; ids := k_ids k; nums := k_nums k; vocab := voc; ordered := ord; ranks := rks;
+  Ok {| len := n; ids := k_ids k; nums := k_nums k; vocab := vocab0 src a; ordered := fst rk; ranks := snd rk;
         fields := scf ++ others |}.
 
 (* ---------------------------------------------------------------- subsetting *)
